@@ -1,6 +1,7 @@
 """'Confusable' tasks for C06: tasks whose parameters are ==-equal in Python (1 == True == 1.0,
-0 == False == 0.0; also inside tuples / dicts / nested tasks) but are different tasks: they serialise
+0 == False == 0.0; a member of a str/int-mixin enum == the member of another such enum with the same value == the bare value; also inside tuples / dicts / nested tasks) but are different tasks: they serialise
 differently, have different cache keys, and run() returns a string that reveals the parameter types."""
+from enum import Enum, IntEnum, StrEnum
 from typing import Any
 
 import labtech
@@ -9,7 +10,29 @@ from frozendict import frozendict
 from histtasks import RecJson, RecPickle, log_line
 
 
+class ImageSets(str, Enum):
+    TRAIN = 'train'
+    TEST = 'test'
+
+
+class TextSets(StrEnum):
+    TRAIN = 'train'
+    TEST = 'test'
+
+
+class Depth(IntEnum):
+    SHALLOW = 1
+    DEEP = 2
+
+
+class Width(int, Enum):
+    NARROW = 1
+    WIDE = 2
+
+
 def reveal(v):
+    if isinstance(v, Enum):        # before the scalar case: members of mixin enums ARE str / int instances
+        return f'{type(v).__name__}.{v.name}'
     if isinstance(v, (tuple, list)):
         return '(' + ','.join(reveal(x) for x in v) + ')'
     if isinstance(v, (dict, frozendict)):
@@ -50,7 +73,10 @@ class Wrap:
         return r
 
 
-GROUPS = {'one': [1, True, 1.0], 'zero': [0, False, 0.0]}
+GROUPS = {'one': [1, True, 1.0], 'zero': [0, False, 0.0],
+          # members of two mixin enums with equal underlying values, and the bare value: all ==-equal
+          'strenum': [ImageSets.TRAIN, TextSets.TRAIN, 'train'],
+          'intenum': [Depth.SHALLOW, Width.NARROW, 1]}
 SHAPES = ('top', 'tuple', 'dict', 'deep', 'task')
 
 
